@@ -35,9 +35,9 @@ TIERS = {
     'quick': dict(K=6, R=2, depth_small=3, depth_big=3, small=6, wordlen=4, wordlen_big=3, big=12, maxpersym=2, maxrare=1,
                   ops=['add', 'fwd', 'remove', 'replace', 'tostring', 'tostring_ic', 'dotelem', 'dotnone'],
                   families=['uniform', 'words', 'perms', 'removal', 'cover', 'afterfail', 'wordrem'], chks=['TRUE', 'FALSE'], shards=40, RM=4, remadds=3, planlen=8, planmax=250),
-    'thorough': dict(K=10, R=4, depth_small=4, depth_big=3, small=6, wordlen=5, wordlen_big=4, big=12, maxpersym=2, maxrare=1,
+    'thorough': dict(K=8, R=3, depth_small=4, depth_big=3, small=5, wordlen=5, wordlen_big=4, big=12, maxpersym=2, maxrare=1,
                      ops=['add', 'fwd', 'remove', 'replace', 'tostring', 'tostring_ic', 'dotelem', 'dotnone'],
-                     families=['uniform', 'words', 'perms', 'removal', 'cover', 'afterfail', 'wordrem'], chks=['TRUE', 'FALSE'], shards=64, RM=6, remadds=4, planlen=12, planmax=100000, small_wordlen=6),
+                     families=['uniform', 'words', 'perms', 'removal', 'cover', 'afterfail', 'wordrem'], chks=['TRUE', 'FALSE'], shards=64, RM=5, remadds=4, planlen=10, planmax=2000, small_wordlen=5),
 }
 
 
